@@ -222,8 +222,16 @@ def debug (c : Case) : String :=
       let n := (V.filter (·.1 == q)).length
       if n > best.2 then (q, n) else best) (0, 0)
     let sample := (V.filter (·.1 == worst.1)).take 2
-    s!"pairs={V.length} states={states.length} worst=state{worst.1}x{worst.2} " ++
-      " || ".intercalate (sample.map fun p => " ; ".intercalate (p.2.map showRe))
+    let diff := match sample with
+      | [p1, p2] =>
+        (p1.2.zip p2.2).map fun (a, b) =>
+          let la := altList a
+          let lb := altList b
+          let da := la.filter fun x => !lb.contains x
+          let db := lb.filter fun x => !la.contains x
+          s!"[{la.length} vs {lb.length}] ONLY-A: " ++ " @@ ".intercalate (da.map showRe) ++ " ONLY-B: " ++ " @@ ".intercalate (db.map showRe)
+      | _ => []
+    s!"pairs={V.length} states={states.length} worst=state{worst.1}x{worst.2} " ++ " ;; ".intercalate diff
 
 def handle (args : List String) : Option String :=
   match args with
